@@ -152,6 +152,11 @@ def net_commands(obs):
             if rec['cmd'].startswith(NET_CMD)]
 
 
+def is_octopus(command):
+    """git merge of two branches at once (Branch.merge quotes each name)."""
+    return command.startswith('git merge ') and command.count("'") >= 4
+
+
 def netfail_hook(target, hit):
     def hook(idx, command, kwargs, rec):
         if idx != target:
@@ -188,6 +193,10 @@ def c02_plan(driver, w, snap, ev, res):
         # ... or one call to the git host API fails (HTTP 503), once
         devs += [['apifail', i] for i, m in enumerate(mut)
                  if m[0] != 'push']
+        # ... or git's octopus strategy gives up (both orders): Bert-E must
+        # fall back to consecutive merges with the same result
+        if any(is_octopus(rec['cmd']) for rec in obs['cmds']):
+            devs.append(['octofail', 0])
     # reference: the uninterrupted run, the event being re-delivered (the
     # delivery is at-least-once) until the destinations no longer move
     ref_sts = []
@@ -220,6 +229,12 @@ def c02_run(driver, w, snap, ev, dev, ctx):
         w.mut_hook = hook
     elif dev[0] == 'netfail':
         w.cmd_hook = netfail_hook(dev[1], {})
+    elif dev[0] == 'octofail':
+        def ohook(idx, command, kwargs, rec):
+            if is_octopus(command):
+                return 'false # ' + command.replace('\n', ' ')
+            return None
+        w.cmd_hook = ohook
     elif dev[0] == 'apifail':
         n = dev[1]
 
